@@ -86,7 +86,12 @@ import numpy as np, andes
 andes.config_logger(stream_level=50)
 spec = json.loads(sys.argv[1])
 def mk(tstep=None, tol=None):
-    ss = andes.load(andes.get_case(spec['case']), no_output=True, default_config=True)
+    ss = andes.load(andes.get_case(spec['case']), no_output=True, default_config=True, setup=False)
+    if spec.get('alter_tc'):
+        # a timed change of a time constant during the run (inertia of the first machine times 0.8 at t = 1 s)
+        gm = ss.GENROU if ss.GENROU.n else ss.GENCLS
+        ss.add('Alter', dict(t=1.0, model=gm.class_name, dev=gm.idx.v[0], src='M', attr='v', method='*', amount=0.8))
+    ss.setup()
     ss.PFlow.run(); c = ss.TDS.config
     c.no_tqdm = 1; c.criteria = 0; c.method = spec['method']; ss.TDS.set_method(spec['method'])
     c.fixt = spec['fixt']; c.g_scale = spec['g_scale']; c.honest = spec['honest']
@@ -99,6 +104,14 @@ if spec['kind'] == 'record':
     with contextlib.redirect_stdout(sink):
         b.TDS.init()
     a.TDS.config.tf = spec['tf']
+    def time_constants(ss_):
+        # the time constants as the MODELS hold them (parameter values), not the vector the integrator keeps
+        T = np.ones(ss_.dae.n)
+        for mdl in ss_.exist.pflow_tds.values():
+            for st in mdl.states.values():
+                if st.t_const is not None and len(st.a):
+                    T[st.a] = st.t_const.v
+        return T
     rec = []
     orig = a.TDS.itm_step
     def wrap():
@@ -109,7 +122,13 @@ if spec['kind'] == 'record':
             for item in a.antiwindups:
                 for key, _, _ in item.x_set:
                     peg.update(int(k) for k in np.ravel(key))
-            rec.append((t, h, x0, f0, a.dae.x.copy(), a.dae.y.copy(), {m: np.array(a.__dict__[m].u.v).copy() for m in ('Line',)},
+            stat = {('Line', 'u'): np.array(a.Line.u.v).copy()}
+            if a.Fault.n:
+                # the status the step was solved with (a fault is applied / cleared by do_switch AFTER the step that
+                # lands on its time has been accepted)
+                stat[('Fault', 'uf')] = np.array(a.Fault.uf.v).copy()
+            stat[('__T', '')] = time_constants(a)
+            rec.append((t, h, x0, f0, a.dae.x.copy(), a.dae.y.copy(), stat,
                         sorted(peg), int(a.TDS.niter), bool(a.TDS.chatter), float(np.max(np.abs(a.TDS.inc)))))
         else:
             if not (np.array_equal(a.dae.x, x0) and np.array_equal(a.dae.y, y0) and np.array_equal(a.dae.f, f0)):
@@ -118,7 +137,6 @@ if spec['kind'] == 'record':
     a.TDS.itm_step = wrap
     with contextlib.redirect_stdout(sink):
         ok = a.TDS.run()
-    Tf = a.dae.Tf.copy()
     wq = wg = 0.0; worst = None; hs = []; notrest = 0; chat = 0; active = 0
     uf = None
     for r in rec:
@@ -129,10 +147,9 @@ if spec['kind'] == 'record':
         if ch:
             chat += 1
         b.dae.x[:] = x1; b.dae.y[:] = y1; b.dae.t = np.array(t)
-        for m, u in us.items():
-            b.__dict__[m].u.v[:] = u
-        if hasattr(a, 'Fault') and a.Fault.n:
-            b.Fault.uf.v[:] = [1.0 if (tf_ <= t < tc_ ) else 0.0 for tf_, tc_ in zip(a.Fault.tf.v, a.Fault.tc.v)]
+        Tf = us.pop(('__T', ''))
+        for (m, attr), u in us.items():
+            getattr(b.__dict__[m], attr).v[:] = u
         b.vars_to_models()
         b.TDS.fg_update(b.exist.pflow_tds)
         f1 = b.dae.f.copy(); g1 = b.dae.g.copy()
@@ -183,6 +200,8 @@ def real_stream(ctx):
     for case, tf in cases:
         for (m, fx, gs, hon) in combos:
             specs.append({'kind': 'record', 'case': case, 'tf': tf, 'method': m, 'fixt': fx, 'g_scale': gs, 'honest': hon})
+    specs.append({'kind': 'record', 'case': cases[0][0], 'tf': 2.4, 'method': 'trapezoid', 'fixt': 1, 'g_scale': 1, 'honest': 0,
+                  'alter_tc': 1})
     for m in ('trapezoid', 'backeuler'):
         specs.append({'kind': 'order', 'case': cases[0][0], 'tf': 2.4, 'method': m, 'fixt': 1, 'g_scale': 1, 'honest': 0,
                       'tstep': 1 / 30})
@@ -190,7 +209,7 @@ def real_stream(ctx):
         res = pool.map(rec_job, specs)
     orders = {}
     for sp, r in zip(specs, res):
-        key = {k: sp[k] for k in ('case', 'method', 'fixt', 'g_scale', 'honest', 'kind')}
+        key = {k: sp.get(k) for k in ('case', 'method', 'fixt', 'g_scale', 'honest', 'kind', 'alter_tc')}
         ctx.case(json.dumps(key, sort_keys=True), key)
         if 'error' in r:
             ctx.oracle_fail('real-run-raises', 'real TDS run raised: ' + r['error'][-200:], key)
